@@ -84,6 +84,7 @@ struct ChunkSpec {
   int def_level_encoding = pq::RLE;  // BIT_PACKED for the negative test
   int codec_tag_override = -1;       // write this codec id in the metadata (negative tests: LZO/BROTLI/unknown)
   int extra_header_fields = 0;       // unknown thrift fields injected into page headers (0..3 = injection level)
+  int index_width_per_page = 0;      // 1: a data page's index width fits the largest index used in that page (parquet-mr / Arrow flush pages while the dictionary still grows: early pages are narrower than the final dictionary needs)
   int codec_flavour = 0;             // ZSTD: 1 = frame without the content-size field, as streaming writers (parquet-mr, zstd-jni streams) produce
 };
 struct PageInfo { int rg = 0, col = 0, page = 0; bool is_dict = false; size_t header_off = 0, header_len = 0, body_off = 0, body_len = 0; size_t first_entry = 0, num_entries = 0; size_t first_row = 0; };
@@ -268,7 +269,8 @@ inline Written write_file(const FileSpec &fs) {
         Bytes vals;
         if (pg.encoding == pq::PLAIN_DICTIONARY || pg.encoding == pq::RLE_DICTIONARY) {
           std::vector<uint32_t> idx; for (size_t i = vpos; i < vpos + nn; i++) idx.push_back(dict_idx[cs.values[i]]);
-          int wd = std::min(32, bits_for_max(dict.empty() ? 0 : (int)dict.size() - 1) + cs.index_width_extra);
+          uint32_t maxidx = 0; for (uint32_t x : idx) maxidx = std::max(maxidx, x);
+          int wd = std::min(32, bits_for_max(cs.index_width_per_page ? (int)maxidx : dict.empty() ? 0 : (int)dict.size() - 1) + cs.index_width_extra);
           vals.push_back((uint8_t)wd);
           Bytes h = ref::hybrid_encode(plan_levels(idx, cs.level_style, seed), wd);
           vals.insert(vals.end(), h.begin(), h.end());
